@@ -126,8 +126,9 @@ def replay_for(d):
 
 def run_items(chk, part, ds, variant="fast", chunk=8):
     items = [jdn(d) for d in ds]
-    res = run_batch(variant, DRIVER, items, env={"VERIF_VTIME": "1"}, chunk=chunk, timeout=300)
+    res = run_batch(variant, DRIVER, items, env={"VERIF_VTIME": "1"}, chunk=chunk, timeout=90)
     calls = []
+    confirmed = [0]
     for d, (st, text) in zip(ds, res):
         chk.add(evaluations=1, transitions=1, states=1)
         inj = ":eintr" if d.get(Kw("eintr")) else ""
@@ -144,11 +145,12 @@ def run_items(chk, part, ds, variant="fast", chunk=8):
             if r[0] != "finished" or r[1] == 0:
                 probs.append(("exit-status", "child killed by signal %s: os/proc-wait returned %r" % (d[Kw("signal")], r)))
         chk.outcome((shape_sig(d), repr(r)[:80]))
-        if probs:
+        if probs and confirmed[0] < 12:
             # replay before report: the scenario must fail the same way twice more, alone
+            confirmed[0] += 1
             kinds = {k for k, _ in probs}
             for _ in range(2):
-                (st2, text2), = run_batch(variant, DRIVER, [jdn(d)], env={"VERIF_VTIME": "1"}, chunk=1, timeout=600)
+                (st2, text2), = run_batch(variant, DRIVER, [jdn(d)], env={"VERIF_VTIME": "1"}, chunk=1, timeout=120)
                 if st2 != "OK":
                     kinds &= {st2.lower()}
                     continue
